@@ -45,7 +45,8 @@ Silent  == UNCHANGED <<tid, l, flag>>
 
 CfgOf(e, x) ==
   [kind |-> e.kind, N |-> e.N, reset |-> e.reset, grad |-> e.grad, useDb |-> e.useDb, storeJac |-> e.storeJac,
-   stopIfNan |-> e.stopIfNan, maxTime |-> e.maxTime, kkt |-> e.kkt, nx |-> e.nx, x0 |-> x, samples |-> e.samples]
+   stopIfNan |-> e.stopIfNan, maxTime |-> e.maxTime, kkt |-> e.kkt, nx |-> e.nx, x0 |-> x, samples |-> e.samples,
+   composite |-> e.composite]
 
 (* ------------------------------------------------------------------ strict: steps of Driver *)
 TExec ==
@@ -73,7 +74,7 @@ TOwnQuiet == todo # <<>> /\ Silent /\ AskOwn /\ req'.st = "none"
 
 \* the algorithm asks an unseen point once the budget is spent: MaxIterReachedException
 TAlgoMaxIter ==
-  /\ More /\ Ev.ev = "end" /\ Ev.cause = "MaxIter" /\ Silent
+  /\ More /\ Ev.ev = "end" /\ Ev.cause \in {"MaxIter", "Other"} /\ Silent
   /\ Ask(<<Obj, "val">>, Fresh) /\ stop' = "MaxIter"
 
 TOrig ==
@@ -101,14 +102,15 @@ TNewIterDrv ==
 
 TQuiet ==
   /\ Silent
-  /\ \/ PreRunDone \/ NextSample \/ KktPass \/ KktStop \/ ClearListeners
+  /\ \/ PreRunDone \/ NextSample \/ KktPass \/ KktStop \/ ClearListeners \/ Resume
      \/ (More /\ Ev.ev = "end" /\ Ev.cause = "Normal" /\ AlgoReturn)
      \/ (More /\ Ev.ev = "end" /\ BuildResult(Ev.xopt))
 
 TEnd ==
   /\ IsEv("end") /\ ~Ev.crashed
   /\ PostRun
-  /\ Ev.result = hasResult /\ Ev.xopt = xopt /\ Ev.cause = stop
+  /\ Ev.result = hasResult /\ Ev.xopt = xopt
+  /\ (Ev.cause = stop \/ (Ev.cause = "Other" /\ stop # "Normal"))     \* "Other": stopped by gemseo, class unknown
   /\ Ev.cur = cur /\ Ev.len = Len(keys)
   /\ Ev.nni = Len(nil) /\ Ev.nsl = Len(sl)
 
